@@ -3,6 +3,7 @@ pub mod c04;
 pub mod c05;
 pub mod c06;
 pub mod c07;
+pub mod c09;
 
 use crate::core::Report;
 
@@ -13,6 +14,7 @@ pub fn dispatch(p: &str, rep: &mut Report) -> bool {
         "C05" => c05::run(rep),
         "C06" => c06::run(rep),
         "C07" => c07::run(rep),
+        "C09" => c09::run(rep),
         _ => return false,
     }
     true
